@@ -188,7 +188,11 @@ def scenarios(tier, seed):
         inp.update({x: 'real' for x in xs})
         S.append(Scenario(f'prog/{idx}', SRC, inp, consts={'prog': prog}, preamble=PRE, what=f'{label}: {_brief(prog)}', samples=2))
     bad = [('@else without an open block', 'a float = 1\n@else\n  b float = 2'), ('@end without an open block', 'a float = 1\n@end'), ('@end at the start', '@end\na float = 1'),
-           ('@else at the start', '@else\n  a float = 1'), ('@end after a block that was already ended', '@case true\n  a float = 1\n@end\n@end')]
+           ('@else at the start', '@else\n  a float = 1'), ('@end after a block that was already ended', '@case true\n  a float = 1\n@end\n@end'),
+           ('@else after a block that was already ended', '@case true\n  a float = 1\n@end\n@else\n  b float = 2'), ('@else after a block that was already ended, with its own @end', '@case false\n  a float = 1\n@end\n@else\n  b float = 2\n@end'),
+           ('second @else in one block', '@case false\n  a float = 1\n@else\n  a float = 2\n@else\n  a float = 3\n@end'), ('second @else in one block (first case true)', '@case true\n  a float = 1\n@else\n  a float = 2\n@else\n  a float = 3\n@end'),
+           ('@else after a block closed by indentation', '@case true\n  a float = 1\nb float = 2\n@else\n  c float = 3'),
+           ('inner @else after the inner block was ended', '@case true\n  @case true\n    a float = 1\n  @end\n  @else\n    b float = 2\n@end')]
     S.append(Scenario('misplaced', BAD_SRC, {}, consts={'cases': bad}, preamble=PRE, what='misplaced @else/@end', samples=1))
     S.append(Scenario('canary/selection', SRC.replace('sel = (not taken) and (tv[cond] if kind', 'sel = (tv[cond] if kind'), {'c1': 'bool', 'c2': 'bool', 'x1': 'real', 'x2': 'real'},
                       consts={'prog': [('block', [('case', 'c1', [N('a', 'x1')]), ('case', 'c2', [N('b', 'x2')])], 'eof')]}, preamble=PRE.replace('sel = (not taken) and (tv[cond] if kind', 'sel = (tv[cond] if kind'), canary=True))
